@@ -78,9 +78,9 @@ class C20(Prop):
                   "uid, creation, noeuid, export, asked, bind, fp, vo) accepts the model's event trace (model_satisfies_spec); for EVERY "
                   "accepted trace - model or real driver - every euid name was granted by the master and every uid name decided by it "
                   "(euid_names_granted, uid_names_decided); the "
-                  "model is tied to the source by 37 regenerated bridging lemmas: path conditions of the euid tests, decision trees "
+                  "model is tied to the source by 40 regenerated bridging lemmas: path conditions of the euid tests, decision trees "
                   "of give_uid_to_object / f_seteuid / f_export_uid / reload_object / set_master / f_bind / load_virtual_object "
-                  "obtained by symbolic execution of their clang AST and proved equal to the model (tie_giveuid_semantics, tie_export_semantics, tie_seteuid_*_semantics: for every "
+                  "obtained by symbolic execution of their clang AST and proved equal to the model (tie_giveuid_semantics, tie_export_semantics, tie_seteuid_*_semantics, tie_reload_semantics, tie_set_master_semantics, tie_premaster_semantics: for every "
                   "configuration, world, object and master answer), dominance theorems (every uid/euid write on every path is "
                   "preceded by the master apply and verdict it needs), an inventory of EVERY write to object_t.uid/euid in src/ and "
                   "lib/, uid records never renamed after the first master load; and by running the real driver (ASan+UBSan) with a "
